@@ -753,3 +753,45 @@ def r9_interval_to_wrapped(ctx):
 
 
 RULES += [r9_interval_to_wrapped]
+
+
+def r10_total_conversion(ctx):
+    ctx.rule("C13.r10", "wrapint(big integer / rational, width) is total: no error exit depends on the VALUE being converted (only on the "
+             "width) - the unsigned value of a 64-bit wrapint and the quotient INT64_MIN / -1 = 2^63 do not fit in an int64_t yet are "
+             "legitimate bit patterns", floor=2)
+    n = 0
+    for fn in ctx.db.fns(WI, cpk=W):
+        if fn.get("ctor") != "other" or len(fn.get("params", [])) != 2:
+            continue
+        pt = (fn["params"][0].get("TC") or fn["params"][0].get("T") or "")
+        if "z_number" not in pt and "q_number" not in pt:
+            continue
+        n += 1
+        body = fn["body"]
+        vid = fn["params"][0]["id"]
+        d = local_decls(body)
+        g = paths.guards(body)
+
+        def depends_on_value(c, depth=0):
+            for y in walk(c):
+                if y.get("k") == "ref" and y.get("id") == vid:
+                    return True
+                if y.get("k") == "ref" and y.get("rk") == "local" and depth < 3:
+                    dd = d.get(y.get("id")) or {}
+                    if "i" in dd and depends_on_value(dd["i"], depth + 1):
+                        return True
+            return False
+        errs = [x for x in walk(body) if x.get("k") == "do" and x.get("m") == "CRAB_ERROR"]
+        bad = [e for e in errs if any(depends_on_value(c) for c, p in g.get(id(e), ()) if not isinstance(c, tuple))]
+        if bad:
+            ctx.bad("wrapint(%s, width) exits with an error under a test of the converted value (`%s`): values of 2^63 and above are "
+                    "bit patterns of a 64-bit integer (INT64_MIN sdiv -1 aborts, get_unsigned_bignum() does not round-trip)" %
+                    (pt.split("::")[-1], src([c for c, p in g.get(id(bad[0]), ()) if not isinstance(c, tuple)][-1])[:40]), fn, bad[0],
+                    sig="conversion-rejects-value")
+        else:
+            ctx.ok("wrapint(%s, width): no value-dependent error exit" % pt.split("::")[-1], fn, body)
+    if n == 0:
+        ctx.fail("rule C13.r10: wrapint(z_number / q_number, width) constructors not found")
+
+
+RULES += [r10_total_conversion]
